@@ -120,7 +120,7 @@ def parseOp (kind : String) (n : String) (v : Nat) (val : Bytes) : Option Op :=
 
 structure DBRun where
   callers : Array Caller := #[]
-  cur : KV := { secrets := ∅, gen := 1 }
+  cur : KV := { secrets := ∅, gen := 1, disk := ∅ }
   hist : Nat := 0
   steps : Nat := 0
   fails : Nat := 0
@@ -135,7 +135,7 @@ def bump (m : Std.HashMap String Nat) (k : String) : Std.HashMap String Nat :=
 def dbLine (st : DBRun) (lineNo : Nat) (line : String) : Except String (DBRun × List String) :=
   let parts := line.splitOn "\t"
   match parts with
-  | ["begin", h] => .ok ({ st with callers := #[], cur := { secrets := ∅, gen := 1 }, hist := h.toNat?.getD 0 }, [])
+  | ["begin", h] => .ok ({ st with callers := #[], cur := { secrets := ∅, gen := 1, disk := ∅ }, hist := h.toNat?.getD 0 }, [])
   | ["caller", _, p, rules] =>
     match parseRules rules with
     | some rs => .ok ({ st with callers := st.callers.push { principal := p, rules := rs } }, [])
@@ -161,7 +161,7 @@ def dbLine (st : DBRun) (lineNo : Nat) (line : String) : Except String (DBRun ×
       let tag := s!"hist={st.hist} line={lineNo}"
       -- unparsable observations are observations too
       let ents? := if entS.startsWith "MALFORMED" then none else parseEntries entS
-      let post? := (parseState diskS).map fun sm => ({ secrets := sm, gen := gen } : KV)
+      let post? := (parseState diskS).map fun sm => ({ secrets := sm, gen := gen, disk := sm } : KV)
       let out0 : List String :=
         (if ents?.isNone then [s!"PROPFAIL C06 record_wellformed {tag} ent={entS}"] else []) ++
         (if post?.isNone then [s!"PROPFAIL C03 disk_readable {tag} disk={diskS}", s!"PROPFAIL C04 disk_readable {tag} disk={diskS}"] else []) ++
